@@ -9,9 +9,16 @@ CFG = dict(
         "bw_all_indices_lt", "superTriangle_cw", "bowyerWatson_spec", "bowyerWatson_not_ccw",
         "bw_order_independent_partial", "superTriangle_contains_box", "superTriangle_contains", "mem_polygon_iff",
         "bw_polygon_order_independent", "bw_hole_order_independent",
+        # the whole run is independent of the map iteration order
+        "bw_order_independent", "bowyerWatson_order_independent",
+        # Delaunay / strict winding invariants of the insertion loop under the two NAMED geometric hypotheses
+        "bw_delaunay_of_fanEmpty", "bw_strict_winding_of_fanPositive", "bw_empty_circumcircles",
+        "fanPositive_check_sound", "fanEmpty_check_sound",
     ],
     # auxiliary lemmas used by the theorems above (kernel-checked with them; not counted as property theorems)
     helper_theorems=[
+        "mem_insertTri_iff", "insertTri_nodup", "fillHole_spec", "step_spec", "step_perm", "loop_perm", "stateAt_succ",
+        "stateAt_nodup", "inCircleDet_corner", "delaunay_inv_of_fanEmpty", "winding_inv_of_fanPositive",
         "sep_key", "sepEdge_sound", "loop_inv", "pointFn_input", "pointFn_super", "orient_smul",
         "delaunay_check_raw",
     ],
@@ -29,7 +36,13 @@ CFG = dict(
         "Go evaluates orient / inCircle in float64 (rounding); all theorems are over exact arithmetic (ordered rings/fields). The oracle judges the float "
         "implementation's output against the exact predicates, so a float sign error on a near-degenerate input would show up as an oracle failure; generators keep predicates well-conditioned",
         "coverage of the convex hull is not part of C20 and not checked (a finite super-triangle may drop thin hull triangles; 3 nearly collinear points give zero triangles)",
-        "order independence is proved per insertion step for the bad-triangle set and the hole-boundary edge SET (bw_order_independent_partial, bw_hole_order_independent); independence of the final triangle set from map order (which also needs fillHole insensitive to edge order and an induction over the loop) is observed (implementation with random Go map order vs model with fixed order on c20.bw lines), not proved",
+        "UNPROVED GEOMETRIC HYPOTHESES, named: FanEmpty (the new fan triangle over each boundary edge of the cavity has no earlier point strictly "
+        "inside its circumcircle) and FanPositive (the inserted point is strictly on the inner side of every directed boundary edge of its cavity: "
+        "the cavity is strictly star-shaped). bw_delaunay_of_fanEmpty / bw_strict_winding_of_fanPositive / bw_empty_circumcircles reduce the "
+        "empty-circumcircle and uniform-winding/positive-area clauses of the MODEL, for every map order, to these two facts about the states the loop "
+        "reaches; discharging them needs the triangulation structure (edge pairing, closed cavity boundary) and the two-circle lemma and is not "
+        "attempted. They are decided per run by executable forms (fanPositive_check_sound, fanEmpty_check_sound) on the model's own states in exact "
+        "arithmetic (oracles c20.holds.fan_positive / fan_empty, inputs up to 40 points). No hypothesis is isolated for the non-overlap clause",
         "proved for the model only under positive width (superTriangle_cw); inputs of zero width (all x equal) are not in general position",
     ],
     assumptions=["float64 arithmetic in Go on amd64 is IEEE-754 without FMA contraction; for integer inputs in [0,64] all intermediate values of the predicates are integers/half-integers below 2^53, hence exact"],
@@ -40,7 +53,11 @@ CFG = dict(
              "circumcircle, for the assumed (clockwise) winding, over any ordered field (inCircle_iff); the super-triangle as now constructed is "
              "clockwise and strictly contains every input (positive width); in the algorithm model, for every map enumeration order: output "
              "vertices are the inputs in order (definitional), no super-triangle index survives, no triangle ever inserted is counter-clockwise "
-             "(non-strict: orient ≤ 0; strict unless collinear), bad set and hole boundary of an insertion are order-independent; the EXECUTABLE "
+             "(non-strict: orient ≤ 0; strict unless collinear), and the FINAL TRIANGLE SET (index triples, corner order included) is independent of the map "
+             "iteration order (bw_order_independent: any two enumerations give duplicate-free permutations of one another); under the two NAMED, UNPROVED "
+             "geometric hypotheses FanEmpty (each new fan triangle is empty of earlier points) and FanPositive (the inserted point is strictly inside "
+             "its cavity's boundary) the model's output has no input strictly inside a circumcircle and is strictly uniformly wound, by induction over "
+             "the insertions — both hypotheses are decided per run on the model's states in exact arithmetic; the EXECUTABLE "
              "checkers for vertices, index range, strict uniform winding (= positive area), no input strictly inside a circumcircle, no two "
              "triangles sharing an interior point are proved sound (c20_checkers_sound) and are run by the driver in exact integer arithmetic on "
              "the IEEE bit patterns of the real BowyerWatson output: sound per input, sampled over inputs (12 generator classes, 3–200 points: "
@@ -48,7 +65,7 @@ CFG = dict(
              "compared exactly on small-integer inputs, where Go's float predicates are exact.",
         note="Trusted: Lean kernel + propext/Classical.choice/Quot.sound; harness and the driver's exact float decoding; hand transcription of "
              "bowyer_watson.go (tied on integer inputs). Not proved: correctness of the incremental algorithm for all inputs (C20_full); Go evaluates "
-             "its predicates in float64 while the theorems are exact arithmetic; independence of the final triangle set from map order (observed). "
+             "its predicates in float64 while the theorems are exact arithmetic; "
              "As written C20 is satisfied by an empty result; hull coverage is not part of it.",
         technique="Lean 4 proof of checker soundness + algorithm invariants; verified checker applied per input to the implementation's output in exact arithmetic; exact model-vs-impl comparison on integer inputs"),
 )
